@@ -27,6 +27,12 @@ Round 5: dict comprehensions / tuple targets over symbolic sequences; `datetime.
 reading: instant + unconstrained offset) and `astimezone` (same instant) on the (instant, aware) abstraction, so timestamp
 normalisation helpers in front of the bound comparisons are decided instead of havoc'd; path pruning resets the solver core
 per query (`C18Executor.feasible`).  The replayer's fake library serves hidden (trimmed) children: short / empty non-final pages.
+
+Round 6: Part E (exceptions.py): `SharePointRequestError.__init__` stores the status and URL it is given (the engine's exception
+values assume exactly that at every raise site).  Executed as the code they stand for: `with suppress(..)`, `with` over a
+single-yield @contextmanager generator (`s_With`), `for` / list comprehension over an uncontracted generator helper (`loop_over_helper`,
+push form), invariant-less search loops over a symbolic sequence (`search_loop`, exact), `f(**dict_of_known_keys)`, zero-argument
+`super().__init__` in exception classes.  Each falls back to out-of-subset / the tagged havoc cut on any other shape.
 """
 import z3
 
